@@ -289,7 +289,7 @@ def zeep_load_kind(e, ir=None, wsdl=b''):
             (m.group(1)[:-len('OutHeaderMsg')], 'out_header')
         for sd in ir['services']:
             for md in sd['methods']:
-                if (md.get('in_message_name') or md['name']) == mname and any(header_also_bare(ir, h) for h in gen.header_names(md, which)):
+                if mname in (md['name'], md.get('operation_name'), md.get('in_message_name')) and any(header_also_bare(ir, h) for h in gen.header_names(md, which)):
                     return 'header_class_also_bare_message_loses_element'
     m2 = re.search(r"Unable to resolve type \{[^}]*\}(\w+)", s) if 'Unable to resolve type' in s else None
     if m2 and ir is not None and any('xmldata' in ft for t in ir['types'] for _, ft in t['fields']):
